@@ -49,7 +49,7 @@ package badger
 //@        kvexp(nonceKey(k)) >= kvget("int64", nonceKey(k)) + s.nonceExpire
 
 //@ func (*badgerStore).CheckAndSaveNonce
-//@ property C05 C12 C13
+//@ property C05 C06 C12 C13
 //@ requires dbInv(s)
 //@ ensures [db-inv] {C12 C13} dbInv(s)
 //@ implements store.NonceStore.CheckAndSaveNonce
